@@ -75,7 +75,7 @@ Theorem c16_parse_printable : forall s, all_str printable_char s = true ->
   parse (cps s) = match parse_ascii s with Some p => Some (p, true) | None => None end.
 Proof. exact parse_printable. Qed.
 
-(* (d) header / banner separation over received lines, and over the byte stream cut at line ends *)
+(* (d) header / banner separation over received lines, and over the byte stream cut anywhere *)
 Theorem c16_header_separation : forall hs b rest x,
   (forall h, In h hs -> blank h = false -> parse h = None) -> parse b = Some x ->
   banner_loop (hs ++ b :: rest)%list = (Some x, filter nonblank hs).
@@ -86,17 +86,20 @@ Proof. exact no_banner_all_header. Qed.
 Theorem c16_header_never_banner : forall ls b hd, banner_loop ls = (b, hd) ->
   Forall (fun h => parse h = None /\ blank h = false) hd.
 Proof. exact header_never_banner. Qed.
-Theorem c16_stream_banner : forall groups hs b e rest later x,
-  Forall no_lf groups -> List.concat groups = (hs ++ (b, e) :: rest)%list ->
+(* commit ddbb5b8: however the byte stream is cut into recv() results (any offsets, 1-byte segments included),
+   banner and header text are those of the uncut stream *)
+Theorem c16_segmentation_independent : forall chunks,
+  get_banner chunks = banner_loop (lines_of_chunk (List.concat chunks)).
+Proof. exact segmentation_independent. Qed.
+Theorem c16_segmentation_irrelevant : forall c1 c2, List.concat c1 = List.concat c2 -> get_banner c1 = get_banner c2.
+Proof. exact segmentation_irrelevant. Qed.
+(* hence: header lines, banner line, further lines, anything after them, CR LF or LF, cut anywhere *)
+Theorem c16_stream_banner : forall chunks ls hs b e rest later x,
+  List.concat chunks = (encode_lines ls ++ later)%list -> no_lf ls -> ls = (hs ++ (b, e) :: rest)%list ->
   (forall h, In h hs -> blank (rstrip (fst h)) = false -> parse (rstrip (fst h)) = None) ->
   parse (rstrip b) = Some x ->
-  get_banner (map encode_lines groups ++ later)%list = (Some x, filter nonblank (map (fun h => rstrip (fst h)) hs)).
+  get_banner chunks = (Some x, filter nonblank (map (fun h => rstrip (fst h)) hs)).
 Proof. exact stream_banner. Qed.
-(* recorded finding line-split-across-segments *)
-Theorem c16_segmentation_refuted : exists l1 l2,
-  ~ In 10%Z (l1 ++ l2)%list
-  /\ fst (get_banner [l1; (l2 ++ [13; 10])%list]%Z) <> fst (get_banner [(l1 ++ l2 ++ [13; 10])%list]%Z).
-Proof. exact segmentation_refuted. Qed.
 
 (* (e) product and version extraction, for every version text (digits and dots, two or more characters,
    ending in a digit) and every patch text that does not start with a digit or a dot *)
